@@ -528,6 +528,21 @@ static int add_sched_to(ABT_pool pool)
 }
 static int a_pool_add_sched(void) { return add_sched_to(g_p1); }
 static int a_pool_add_sched_up(void) { return add_sched_to(g_up); }
+/* The main scheduler of ANOTHER, joined (not yet freed) stream is replaced by a scheduler whose
+ * first pool is user-defined: the scheduler's ULT needs a unit of that pool.  A failed call must
+ * leave the scheduler unused, for the retry. */
+static ABT_pool g_up2 = ABT_POOL_NULL;
+static int a_set_main_sched_other(void)
+{
+    g_h = "na";
+    if (!g_nes)
+        return ABT_SUCCESS; /* (needs a secondary stream) */
+    ABT_sched s = (ABT_sched)g_obj2;
+    int r = ABT_xstream_set_main_sched(g_xs1, s);
+    if (r == ABT_SUCCESS)
+        g_obj2 = NULL;
+    return r;
+}
 static int a_info_print(void)
 {
     g_h = "na";
@@ -601,6 +616,7 @@ static const op_t OPS[] = {
     { "set_main_sched_basic", "none", a_set_main_sched_basic, NULL, 1, 1 },
     { "set_main_sched", "none", a_set_main_sched, NULL, 1, 1 },
     { "info_print", "none", a_info_print, NULL },
+    { "set_main_sched_other", "upm", a_set_main_sched_other, NULL, 1, 1 },
     { "pool_add_sched", "p1", a_pool_add_sched, NULL, 0, 1 },
     { "pool_add_sched_up", "up", a_pool_add_sched_up, NULL, 0, 1 },
 };
@@ -838,6 +854,14 @@ static int cycle(const op_t *op, int k, uint64_t var)
         CHK(ABT_sched_config_free(&cfg));
         g_obj2 = (void *)s;
     }
+    g_up2 = ABT_POOL_NULL;
+    if (!strcmp(op->name, "set_main_sched_other") && g_nes) {
+        ABT_sched s;
+        CHK(ABT_xstream_join(g_xs1));
+        CHK(ABT_pool_create(g_def, ABT_POOL_CONFIG_NULL, &g_up2));
+        CHK(ABT_sched_create_basic(ABT_SCHED_BASIC, 1, &g_up2, ABT_SCHED_CONFIG_NULL, &s));
+        g_obj2 = (void *)s;
+    }
     g_ran = 0;
     if (op->attempt) {
         snap("base");
@@ -891,6 +915,8 @@ static int cycle(const op_t *op, int k, uint64_t var)
     CHK(ABT_pool_free(&g_p1));
     CHK(ABT_pool_free(&g_p2));
     CHK(ABT_pool_free(&g_up));
+    if (g_up2 != ABT_POOL_NULL)
+        CHK(ABT_pool_free(&g_up2));
     CHK(ABT_pool_user_def_free(&g_def));
     CHK(ABT_finalize());
     free(g_ustack);
